@@ -79,3 +79,36 @@ def check_atomicity(sc, base, x):
     for f in x.src:
         if f not in orig:
             yield "new-source-file", f
+
+
+def check_followup(x):
+    """Differential oracle for the recovery run (see fsx._followup). Yields (class, detail)."""
+    fo = x.follow
+    if not fo:
+        return
+    if fo["p_panicked"]:
+        yield "recovery-run-crashed", ""
+    if fo["p_exit"] != fo["q_exit"]:
+        yield "recovery-run-exit-differs-from-clean-world", "polluted %r clean %r" % (fo["p_exit"], fo["q_exit"])
+    for f, o in fo["before"].items():
+        want = insertion_offsets(o, fo["q_src"].get(f, b""))
+        have = insertion_offsets(o, fo["p_src"].get(f, b""))
+        if want is None:
+            continue        # the clean world itself did not produce a token-only result: not this oracle's business
+        if have is None:
+            yield "recovery-run-corrupts-source", f
+        elif have != want and fo["p_exit"] == 0 and fo["q_exit"] == 0:
+            yield "recovery-run-inserts-differently-from-clean-world", f
+
+
+def followup_lock_problem(x, max_id_fn):
+    """The lock after the recovery run must cover every ID in the tree whenever the clean world's lock does."""
+    fo = x.follow
+    if not fo or fo["p_exit"] != 0 or fo["q_exit"] != 0:
+        return None
+    if isinstance(fo["q_lock"], int) and fo["q_lock"] > max_id_fn(fo["q_src"]):
+        if not isinstance(fo["p_lock"], int):
+            return "lock-not-written-by-recovery-run"
+        if fo["p_lock"] <= max_id_fn(fo["p_src"]):
+            return "lock-does-not-cover-ids-after-recovery-run"
+    return None
